@@ -11,7 +11,7 @@
    them on every generated file (Corr/C12.v). *)
 Require Import Gengo.Base.Bytes.
 From Coq Require Import ZArith.
-Require Import Gengo.Model.Comments Gengo.Spec.Comments Gengo.Proofs.Comments.
+Require Import Gengo.Model.Comments Gengo.Spec.Comments Gengo.Proofs.Comments Gengo.Proofs.CommentLines.
 
 (* ---- tag extraction: all byte strings, all marker sets, all line lists ---- *)
 
@@ -80,11 +80,44 @@ Theorem C12_no_steal :
 Proof. exact doc_group_no_steal. Qed.
 Print Assumptions C12_no_steal.
 
-(* the lines the code reports for a group are the specified ones (empty text: none; go: lines skipped) *)
+(* The lines the code reports for a group (commentLinesFrom, package.go:427-451: TrimSpace, Split at "\n", skip
+   "go:") are exactly the lines the RELATION [lines_of_text] of Spec/Comments.v describes.  The relation uses no
+   function of the model — white space is a list of 25 UTF-8 byte sequences, "trimmed" is a decomposition
+   blank ++ core ++ blank with core neither starting nor ending with one of them, the pieces are newline-free
+   strings that joined with one newline give core back, "go:" lines are left out in order — so this is a statement
+   about the model's byte tests, its two trimming loops (fuel included), its splitter and its filter, not a copy of
+   them.  <-> : the code computes lines satisfying the relation, and nothing else satisfies it. *)
 Theorem C12_group_lines :
-  forall text, group_lines true text = spec_lines text.
-Proof. exact group_lines_spec. Qed.
+  forall text ls, lines_of_text text ls <-> group_lines true text = ls.
+Proof. exact group_lines_meets_relation. Qed.
 Print Assumptions C12_group_lines.
+
+(* the relation is functional and total: it defines THE lines of a group *)
+Theorem C12_lines_relation_functional :
+  forall text l1 l2, lines_of_text text l1 -> lines_of_text text l2 -> l1 = l2.
+Proof. exact lines_of_text_functional. Qed.
+Print Assumptions C12_lines_relation_functional.
+
+Theorem C12_lines_relation_total :
+  forall text, exists ls, lines_of_text text ls.
+Proof. exact lines_of_text_total. Qed.
+Print Assumptions C12_lines_relation_total.
+
+(* [spec_lines], the executable form that the attribution theorems above and Corr/C12.v use (it calls the model's
+   trim_space), means the same relation — so "= spec_lines (g_text c)" in C12_comment_own etc. reads
+   "are the lines of c in the sense of lines_of_text" *)
+Theorem C12_spec_lines_is_relation :
+  forall text ls, lines_of_text text ls <-> spec_lines text = ls.
+Proof. exact spec_lines_meets_relation. Qed.
+Print Assumptions C12_spec_lines_is_relation.
+
+(* the model's strings.TrimSpace alone, relationally *)
+Theorem C12_trim_space :
+  forall text core,
+    (exists pre suf, text = pre ++ core ++ suf /\ blank pre /\ blank suf /\ ~ starts_ws core /\ ~ ends_ws core)
+    <-> trim_space text = core.
+Proof. exact trim_space_relational. Qed.
+Print Assumptions C12_trim_space.
 
 (* the boolean check evaluated on every generated file implies the hypotheses above *)
 Theorem C12_wf_checked :
@@ -150,6 +183,14 @@ Example C12_tags_example :
   extract_tags true [] [bs "+foo=value1"; bs "  text "; bs "+bar"; bs "@foo value2"; bs "+baz=""qux"""]
   = ([(bs "foo", [bs "value1"; bs "value2"]); (bs "bar", [bs ""]); (bs "baz", [bs """qux"""])], [bs "text"]).
 Proof. vm_compute. reflexivity. Qed.
+
+(* the relation on a text with tab / space / U+00A0 in front, a line that keeps its own inner spaces, a go: directive,
+   a tag line and newlines + U+2028 behind: shown from the definition of the relation alone (no model function) *)
+Example C12_lines_example :
+  ex_text = map ascii_of_N [9; 32; 194; 160]%N ++ bs "first" ++ [nl] ++ bs "  second " ++ [nl] ++ bs "go:generate x"
+            ++ [nl] ++ bs "+tag=1" ++ [nl; nl] ++ map ascii_of_N [226; 128; 168]%N
+  /\ lines_of_text ex_text [bs "first"; bs "  second "; bs "+tag=1"].
+Proof. exact (conj eq_refl ex_lines_of_text_direct). Qed.
 
 (* a well-formed layout with a doc group, a trailing comment and an undocumented next line:
      3: // doc A          (stand-alone, also visited as A's Doc)
